@@ -611,6 +611,48 @@ func isDotted(s string) bool {
 	return s[0] != '.' && s[len(s)-1] != '.'
 }
 
+// denseSymbols are the syntax-relevant building blocks of each ecosystem's tail grammar.
+var denseSymbols = map[string][]string{
+	"rpm":      {"a", "b", "1", "0", "2", ".", "_", "+", "~", "^", "-", "rc"},
+	"debian":   {"a", "b", "1", "0", "2", ".", "+", "~", "-", "A"},
+	"alpm":     {"a", "b", "1", "0", "2", ".", "_", "+", "-1", "rc"},
+	"gem":      {"a", "b", "1", "0", "2", ".", "-", "rc", "pre"},
+	"maven":    {"a", "b", "1", "0", "2", ".", "-", "rc", "sp", "foo", "ga"},
+	"alpine":   {"a", "b", "1", "0", "2", ".", "_p", "_rc", "_alpha", "-r1", "_git"},
+	"gentoo":   {"a", "b", "1", "0", ".", "_p", "_rc", "_alpha", "-r1"},
+	"pypi":     {"a", "b", "rc", "1", "0", ".", ".post", ".dev", "+", "c"},
+	"conan":    {"a", "b", "1", "0", "2", ".", "-", "+"},
+	"composer": {"a", "b", "1", "0", ".", "-", "RC", "beta", "pl", "-patch"},
+	"cran":     {"1", "0", "2", ".", "-", "10"},
+}
+var denseDefault = []string{"a", "b", "1", "0", "2", ".", "-", "+", "rc", "A"}
+
+// Dense enumerates ALL tails of up to 3 symbols over a random 4-symbol subset of the ecosystem's tail
+// alphabet and appends them to one base: a dense local neighbourhood in which adjacency rules (letter next
+// to letter vs letter-separator-letter, digit next to letter, doubled separators ...) all meet each other.
+func Dense(eco, base string, r *rand.Rand) []string {
+	syms := denseSymbols[eco]
+	if syms == nil {
+		syms = denseDefault
+	}
+	pickd := r.Perm(len(syms))[:4]
+	sub := make([]string, 4)
+	for i, k := range pickd {
+		sub[i] = syms[k]
+	}
+	var out []string
+	for _, a := range sub {
+		out = append(out, base+a)
+		for _, b := range sub {
+			out = append(out, base+a+b)
+			for _, c := range sub {
+				out = append(out, base+a+b+c)
+			}
+		}
+	}
+	return out
+}
+
 // Cluster emits a base and 20-60 near-identical neighbours (order bugs live between neighbours).
 func Cluster(eco string, r *rand.Rand) []string {
 	ar := Arity[eco]
@@ -683,6 +725,9 @@ func Cluster(eco string, r *rand.Rand) []string {
 				out = append(out, strings.Join(d, ".")+ms.Post[r.IntN(len(ms.Post))])
 			}
 		}
+	}
+	if chance(r, 1, 6) {
+		out = append(out, Dense(eco, base, r)...)
 	}
 	// ecosystem-specific extras around the same base
 	for k := 0; k < 6; k++ {
